@@ -24,7 +24,9 @@ RULE = ("random searches: ForecastingGridSearchCV (75%) / ForecastingRandomizedS
         "or as a LIST of 2-3 dicts naming DIFFERENT parameters with overlapping value sets, possibly "
         "the empty dict (50%): candidates are partial assignments that leave other parameters at the "
         "base forecaster's values; 30%: a PRIOR search on a different series in the same process, on "
-        "the same tuner object or on a second tuner sharing the base forecaster and cv objects - "
+        "the same tuner object or on a second tuner sharing the base forecaster and cv objects; 25%: "
+        "the BASE forecaster object handed to the tuner is already fitted (on the full series / on "
+        "another series / used by an earlier evaluate() call) - "
         "2..8 candidates, series of small positive integers (n <= 22), sliding / expanding / "
         "single splitters as in C07, strategy refit / update, metrics of both directions (MAPE, "
         "sMAPE default, MAE, MSE, asymmetric scorer as loss and as greater_is_better, negated MAE "
@@ -361,6 +363,22 @@ def _run_impl(case):
     base = make_base(case["base"])
     scoring = make_metric(case["metric"])
     kw = dict(scoring=scoring, strategy=case["strategy"], refit=case["refit"])
+    # the state of the BASE forecaster object handed to the tuner: fresh, or already fitted by the
+    # caller (full series / another series / an earlier evaluate() call).  The search works on clones
+    # with the candidate's parameters: nothing of that state may reach a candidate or the refit.
+    # Whatever happens in this set-up is the caller's business.
+    if case.get("base_state"):
+        y0 = pd.Series(y.to_numpy()[::-1] * 3.0 + 2.0, index=y.index)
+        try:
+            if case["base_state"] == "full":
+                base.fit(y.copy(), None if X is None else X.copy(), fh=[1])
+            elif case["base_state"] == "other":
+                base.fit(y0, None if X is None else X.copy(), fh=[1, 2])
+            else:
+                evaluate(base, c07.make_cv(case["splitter"]), y0, X, strategy="update",
+                         scoring=make_metric("mae"))
+        except Exception:
+            pass
 
     # random_state: an integer (every pass over the sampler repeats), None (numpy's global generator)
     # or ONE RandomState instance (both: every pass over the sampler draws afresh)
@@ -757,6 +775,7 @@ def gen_cases(rng, tier):
             "base": base, "grid": grid, "form": form,
             "prior": rng.choice([None, None, None, None, None, None, None, "same", "other",
                                  "other"]),
+            "base_state": rng.choice([None] * 9 + ["full", "other", "evaluated"]),
             "splitter": sp, "off": rng.choice([0, 0, 5]),
             "y": [rng.randint(1, 9) for _ in range(n)],
             "X": [rng.randint(-2, 4) for _ in range(n)] if with_x else None,
@@ -791,6 +810,10 @@ def shrink(case):
     if c.get("prior"):
         d = dict(c)
         d["prior"] = None
+        yield d
+    if c.get("base_state"):
+        d = dict(c)
+        d["base_state"] = None
         yield d
     if c.get("fit_params"):
         d = dict(c)
@@ -1038,6 +1061,7 @@ def distribution(cases, results):
                 d["scipy-distribution=%s" % _has_dist(c["grid"])] += 1
             d["space=%s" % c.get("form", "dict")] += 1
             d["prior-search=%s" % c.get("prior")] += 1
+            d["base-forecaster-object=%s" % (c.get("base_state") or "fresh")] += 1
             d["fit-keywords=%s" % bool(c.get("fit_params"))] += 1
             d["fit-horizon=%s" % ("none" if c["fit_fh"] is None else
                                   "absolute" if c.get("fit_fh_abs") else "relative")] += 1
